@@ -17,6 +17,7 @@ import (
 	"strings"
 	"time"
 
+	"github.com/andot/complexconv"
 	"github.com/google/uuid"
 	hio "github.com/hprose/hprose-golang/v3/io"
 	"hv/hvlib"
@@ -140,7 +141,7 @@ func oracle(fn, arg string) (res string) {
 		if fn == "pc64" {
 			bits, fb = 64, 32
 		}
-		c, err := strconv.ParseComplex(arg, bits)
+		c, err := complexconv.ParseComplex(arg, bits)
 		if err != nil {
 			return "!"
 		}
